@@ -13,11 +13,11 @@ structure ItRel (xs : List Nat) (c : LSeq.Cursor) (it : Iter) : Prop where
   le : c.pos ≤ xs.length
   cur : ∀ k, c.cur = some k → k < c.pos
 
-theorem iterInit_rel (xs : List Nat) : ItRel xs LSeq.itNew (iterInit (ofList xs)) :=
-  ⟨rfl, ofList_head_ptrAt xs, rfl, Nat.zero_le _, by intro k h; cases h⟩
+theorem iterInit_rel (xs : List Nat) : ItRel xs LSeq.itNew (iterInit (ofList t xs)) :=
+  ⟨rfl, ofList_head_ptrAt (t := t) xs, rfl, Nat.zero_le _, by intro k h; cases h⟩
 
 theorem iterNext_ofList (xs : List Nat) (c : LSeq.Cursor) (it : Iter) (m : Mem) (h : ItRel xs c it) :
-    ∃ it', iterNext (ofList xs) it m = ((LSeq.itNext xs c).1, (LSeq.itNext xs c).2.1, it', m) ∧
+    ∃ it', iterNext (ofList t xs) it m = ((LSeq.itNext xs c).1, (LSeq.itNext xs c).2.1, it', m) ∧
       ItRel xs (LSeq.itNext xs c).2.2 it' := by
   unfold iterNext LSeq.itNext
   by_cases hp : c.pos < xs.length
@@ -35,8 +35,8 @@ theorem iterIndex_rel (xs : List Nat) (c : LSeq.Cursor) (it : Iter) (h : ItRel x
     iterIndex it = LSeq.itIndex c := by simp [iterIndex, LSeq.itIndex, wdec, h.idx]
 
 theorem iterReplace_ofList (xs : List Nat) (c : LSeq.Cursor) (it : Iter) (x : Nat) (m : Mem) (h : ItRel xs c it) :
-    iterReplace (ofList xs) it x m =
-      ((LSeq.itReplace xs c x).1, (LSeq.itReplace xs c x).2.1, ofList (LSeq.itReplace xs c x).2.2, m) ∧
+    iterReplace (ofList t xs) it x m =
+      ((LSeq.itReplace xs c x).1, (LSeq.itReplace xs c x).2.1, ofList t (LSeq.itReplace xs c x).2.2, m) ∧
     ItRel (LSeq.itReplace xs c x).2.2 c it := by
   unfold iterReplace LSeq.itReplace
   rw [h.lst]
@@ -51,9 +51,9 @@ theorem iterReplace_ofList (xs : List Nat) (c : LSeq.Cursor) (it : Iter) (x : Na
       exact ⟨h.idx, by simp [h.nxt], h.lst, by simp [h.le], h.cur⟩
 
 theorem iterRemove_ofList (xs : List Nat) (c : LSeq.Cursor) (it : Iter) (m : Mem) (h : ItRel xs c it) :
-    ∃ it', iterRemove (ofList xs) it m =
-      ((LSeq.itRemove xs c).1, (LSeq.itRemove xs c).2.1, ofList (LSeq.itRemove xs c).2.2.1, it',
-       if (LSeq.itRemove xs c).1 = .ok then m.free else m) ∧
+    ∃ it', iterRemove (ofList t xs) it m =
+      ((LSeq.itRemove xs c).1, (LSeq.itRemove xs c).2.1, ofList t (LSeq.itRemove xs c).2.2.1, it',
+       if (LSeq.itRemove xs c).1 = .ok then (m.freeT t) else m) ∧
     ItRel (LSeq.itRemove xs c).2.2.1 (LSeq.itRemove xs c).2.2.2 it' := by
   unfold iterRemove LSeq.itRemove
   rw [h.lst]
@@ -76,15 +76,16 @@ theorem iterRemove_ofList (xs : List Nat) (c : LSeq.Cursor) (it : Iter) (m : Mem
 
 theorem iterAdd_ofList (xs : List Nat) (c : LSeq.Cursor) (it : Iter) (x k : Nat) (m : Mem) (h : ItRel xs c it)
     (hc : c.cur = some k) (hpos : c.pos = k + 1) :
-    ∃ it', iterAdd (ofList xs) it x m =
-      (if m.alloc.1 then (.ok, ofList (LSeq.itAdd false xs c x).1, it', m.alloc.2) else (.errAlloc, ofList xs, it, m.alloc.2)) ∧
+    ∃ it', iterAdd (ofList t xs) it x m =
+      (if (m.allocT t).1 then (.ok, ofList t (LSeq.itAdd false xs c x).1, it', (m.allocT t).2) else (.errAlloc, ofList t xs, it, (m.allocT t).2)) ∧
     ItRel (LSeq.itAdd false xs c x).1 (LSeq.itAdd false xs c x).2 it' := by
   unfold iterAdd LSeq.itAdd
   have hk : k < xs.length := by have := h.le; omega
   have h0 : xs.length ≠ 0 := by omega
   rw [h.lst, hc]
   refine ⟨{ index := it.index + 1, last := Ptr.shiftIns (k + 1) 1 (some k), next := it.next.shiftIns (k + 1) 1 }, ?_, ?_⟩
-  · by_cases ha : m.alloc.1 = true
+  · (try simp only [ofList_triple])
+    by_cases ha : (m.allocT t).1 = true
     · simp only [ha, Bool.not_true, Bool.false_eq_true, if_false, if_true, ofList_nodes, Ptr.valid, hk, decide_true,
         Mem.check_true, Ptr.pos, Option.getD_some, ofList_size, h.idx, hpos]
       congr 1; congr 1
@@ -114,11 +115,11 @@ structure DitRel (xs : List Nat) (c : LSeq.Cursor) (it : Iter) : Prop where
   le : c.pos ≤ xs.length
   cur : ∀ k, c.cur = some k → c.pos ≤ k ∧ k < xs.length
 
-theorem diterInit_rel (xs : List Nat) : DitRel xs (LSeq.ditNew xs) (diterInit (ofList xs)) :=
+theorem diterInit_rel (xs : List Nat) : DitRel xs (LSeq.ditNew xs) (diterInit (ofList t xs)) :=
   ⟨rfl, by simp [diterInit, ofList, LSeq.ditNew], rfl, Nat.le_refl _, by intro k h; cases h⟩
 
 theorem diterNext_ofList (xs : List Nat) (c : LSeq.Cursor) (it : Iter) (m : Mem) (h : DitRel xs c it) :
-    ∃ it', diterNext (ofList xs) it m = ((LSeq.ditNext xs c).1, (LSeq.ditNext xs c).2.1, it', m) ∧
+    ∃ it', diterNext (ofList t xs) it m = ((LSeq.ditNext xs c).1, (LSeq.ditNext xs c).2.1, it', m) ∧
       DitRel xs (LSeq.ditNext xs c).2.2 it' := by
   unfold diterNext LSeq.ditNext
   have hle := h.le
@@ -142,8 +143,8 @@ theorem diterIndex_rel (xs : List Nat) (c : LSeq.Cursor) (it : Iter) (h : DitRel
     diterIndex it = LSeq.ditIndex c := h.idx
 
 theorem diterReplace_ofList (xs : List Nat) (c : LSeq.Cursor) (it : Iter) (x : Nat) (m : Mem) (h : DitRel xs c it) :
-    iterReplace (ofList xs) it x m =
-      ((LSeq.itReplace xs c x).1, (LSeq.itReplace xs c x).2.1, ofList (LSeq.itReplace xs c x).2.2, m) ∧
+    iterReplace (ofList t xs) it x m =
+      ((LSeq.itReplace xs c x).1, (LSeq.itReplace xs c x).2.1, ofList t (LSeq.itReplace xs c x).2.2, m) ∧
     DitRel (LSeq.itReplace xs c x).2.2 c it := by
   unfold iterReplace LSeq.itReplace
   rw [h.lst]
@@ -158,9 +159,9 @@ theorem diterReplace_ofList (xs : List Nat) (c : LSeq.Cursor) (it : Iter) (x : N
       exact ⟨h.idx, h.nxt, h.lst, by simp [h.le], by intro k' hk'; simpa using h.cur k' hk'⟩
 
 theorem diterRemove_ofList (xs : List Nat) (c : LSeq.Cursor) (it : Iter) (m : Mem) (h : DitRel xs c it) :
-    ∃ it', diterRemove (ofList xs) it m =
-      ((LSeq.ditRemove xs c).1, (LSeq.ditRemove xs c).2.1, ofList (LSeq.ditRemove xs c).2.2.1, it',
-       if (LSeq.ditRemove xs c).1 = .ok then m.free else m) ∧
+    ∃ it', diterRemove (ofList t xs) it m =
+      ((LSeq.ditRemove xs c).1, (LSeq.ditRemove xs c).2.1, ofList t (LSeq.ditRemove xs c).2.2.1, it',
+       if (LSeq.ditRemove xs c).1 = .ok then (m.freeT t) else m) ∧
     DitRel (LSeq.ditRemove xs c).2.2.1 (LSeq.ditRemove xs c).2.2.2 it' := by
   unfold diterRemove LSeq.ditRemove
   rw [h.lst]
@@ -180,15 +181,16 @@ theorem diterRemove_ofList (xs : List Nat) (c : LSeq.Cursor) (it : Iter) (m : Me
 
 theorem diterAdd_ofList (xs : List Nat) (c : LSeq.Cursor) (it : Iter) (x k : Nat) (m : Mem) (h : DitRel xs c it)
     (hc : c.cur = some k) (hpos : c.pos = k) :
-    ∃ it', diterAdd (ofList xs) it x m =
-      (if m.alloc.1 then (.ok, ofList (LSeq.ditAdd xs c x).1, it', m.alloc.2) else (.errAlloc, ofList xs, it, m.alloc.2)) ∧
+    ∃ it', diterAdd (ofList t xs) it x m =
+      (if (m.allocT t).1 then (.ok, ofList t (LSeq.ditAdd xs c x).1, it', (m.allocT t).2) else (.errAlloc, ofList t xs, it, (m.allocT t).2)) ∧
     DitRel (LSeq.ditAdd xs c x).1 (LSeq.ditAdd xs c x).2 it' := by
   unfold diterAdd LSeq.ditAdd
   have hk : k < xs.length := (h.cur k hc).2
   have h0 : xs.length ≠ 0 := by omega
   rw [h.lst, hc]
   refine ⟨{ it with last := some k, next := it.next.shiftIns k 1 }, ?_, ?_⟩
-  · by_cases ha : m.alloc.1 = true
+  · (try simp only [ofList_triple])
+    by_cases ha : (m.allocT t).1 = true
     · simp only [ha, Bool.not_true, Bool.false_eq_true, if_false, if_true, ofList_nodes, Ptr.valid, hk, decide_true,
         Mem.check_true, Ptr.pos, Option.getD_some, h.idx, hpos]
       congr 1; congr 1
@@ -218,11 +220,11 @@ structure ZipRel (xs ys : List Nat) (c : LSeq.Cursor) (z : ZipIter) : Prop where
   le2 : c.pos ≤ ys.length
   cur : ∀ k, c.cur = some k → k < c.pos
 
-theorem zipInit_rel (xs ys : List Nat) : ZipRel xs ys LSeq.itNew (zipInit (ofList xs) (ofList ys)) :=
-  ⟨rfl, ofList_head_ptrAt xs, ofList_head_ptrAt ys, rfl, rfl, Nat.zero_le _, Nat.zero_le _, by intro k h; cases h⟩
+theorem zipInit_rel (xs ys : List Nat) : ZipRel xs ys LSeq.itNew (zipInit (ofList t xs) (ofList t2 ys)) :=
+  ⟨rfl, ofList_head_ptrAt (t := t) xs, ofList_head_ptrAt (t := t2) ys, rfl, rfl, Nat.zero_le _, Nat.zero_le _, by intro k h; cases h⟩
 
 theorem zipNext_ofList (xs ys : List Nat) (c : LSeq.Cursor) (z : ZipIter) (m : Mem) (h : ZipRel xs ys c z) :
-    ∃ z', zipNext (ofList xs) (ofList ys) z m = ((LSeq.zitNext xs ys c).1, (LSeq.zitNext xs ys c).2.1, z', m) ∧
+    ∃ z', zipNext (ofList t xs) (ofList t2 ys) z m = ((LSeq.zitNext xs ys c).1, (LSeq.zitNext xs ys c).2.1, z', m) ∧
       ZipRel xs ys (LSeq.zitNext xs ys c).2.2 z' := by
   unfold zipNext LSeq.zitNext
   by_cases hp : c.pos < xs.length ∧ c.pos < ys.length
@@ -252,9 +254,9 @@ theorem zipIndex_rel (xs ys : List Nat) (c : LSeq.Cursor) (z : ZipIter) (h : Zip
 
 theorem zipReplace_ofList (xs ys : List Nat) (c : LSeq.Cursor) (z : ZipIter) (x1 x2 : Nat) (m : Mem)
     (h : ZipRel xs ys c z) :
-    zipReplace (ofList xs) (ofList ys) z x1 x2 m =
+    zipReplace (ofList t xs) (ofList t2 ys) z x1 x2 m =
       ((LSeq.zitReplace xs ys c x1 x2).1, (LSeq.zitReplace xs ys c x1 x2).2.1,
-       ofList (LSeq.zitReplace xs ys c x1 x2).2.2.1, ofList (LSeq.zitReplace xs ys c x1 x2).2.2.2, m) ∧
+       ofList t (LSeq.zitReplace xs ys c x1 x2).2.2.1, ofList t2 (LSeq.zitReplace xs ys c x1 x2).2.2.2, m) ∧
     ZipRel (LSeq.zitReplace xs ys c x1 x2).2.2.1 (LSeq.zitReplace xs ys c x1 x2).2.2.2 c z := by
   unfold zipReplace LSeq.zitReplace
   rw [h.lst1, h.lst2]
@@ -285,10 +287,10 @@ theorem shiftIns_ptrAt (n k : Nat) (hk : k + 1 ≤ n) :
   · rw [if_neg h, if_neg (by omega)]; rfl
 
 theorem zipRemove_ofList (xs ys : List Nat) (c : LSeq.Cursor) (z : ZipIter) (m : Mem) (h : ZipRel xs ys c z) :
-    ∃ z', zipRemove (ofList xs) (ofList ys) z m =
-      ((LSeq.zitRemove xs ys c).1, (LSeq.zitRemove xs ys c).2.1, ofList (LSeq.zitRemove xs ys c).2.2.1,
-       ofList (LSeq.zitRemove xs ys c).2.2.2.1, z',
-       if (LSeq.zitRemove xs ys c).1 = .ok then m.free.free else m) ∧
+    ∃ z', zipRemove (ofList t xs) (ofList t2 ys) z m =
+      ((LSeq.zitRemove xs ys c).1, (LSeq.zitRemove xs ys c).2.1, ofList t (LSeq.zitRemove xs ys c).2.2.1,
+       ofList t2 (LSeq.zitRemove xs ys c).2.2.2.1, z',
+       if (LSeq.zitRemove xs ys c).1 = .ok then ((m.freeT t).freeT t2) else m) ∧
     ZipRel (LSeq.zitRemove xs ys c).2.2.1 (LSeq.zitRemove xs ys c).2.2.2.1 (LSeq.zitRemove xs ys c).2.2.2.2 z' := by
   unfold zipRemove LSeq.zitRemove
   rw [h.lst1, h.lst2]
@@ -311,12 +313,12 @@ theorem zipRemove_ofList (xs ys : List Nat) (c : LSeq.Cursor) (z : ZipIter) (m :
 
 theorem zipAdd_ofList (xs ys : List Nat) (c : LSeq.Cursor) (z : ZipIter) (x1 x2 k : Nat) (m : Mem)
     (h : ZipRel xs ys c z) (hc : c.cur = some k) (hpos : c.pos = k + 1) :
-    ∃ z', zipAdd (ofList xs) (ofList ys) z x1 x2 m =
-      (if m.alloc.1 then
-         (if m.alloc.2.alloc.1 then
-            (.ok, ofList (LSeq.zitAdd false xs ys c x1 x2).1, ofList (LSeq.zitAdd false xs ys c x1 x2).2.1, z', m.alloc.2.alloc.2)
-          else (.errAlloc, ofList xs, ofList ys, z, m.alloc.2.alloc.2.free))
-       else (.errAlloc, ofList xs, ofList ys, z, m.alloc.2)) ∧
+    ∃ z', zipAdd (ofList t xs) (ofList t2 ys) z x1 x2 m =
+      (if (m.allocT t).1 then
+         (if ((m.allocT t).2.allocT t2).1 then
+            (.ok, ofList t (LSeq.zitAdd false xs ys c x1 x2).1, ofList t2 (LSeq.zitAdd false xs ys c x1 x2).2.1, z', ((m.allocT t).2.allocT t2).2)
+          else (.errAlloc, ofList t xs, ofList t2 ys, z, (((m.allocT t).2.allocT t2).2.freeT t)))
+       else (.errAlloc, ofList t xs, ofList t2 ys, z, (m.allocT t).2)) ∧
     ZipRel (LSeq.zitAdd false xs ys c x1 x2).1 (LSeq.zitAdd false xs ys c x1 x2).2.1 (LSeq.zitAdd false xs ys c x1 x2).2.2 z' := by
   unfold zipAdd LSeq.zitAdd
   have hk1 : k < xs.length := by have := h.le1; omega
@@ -326,8 +328,9 @@ theorem zipAdd_ofList (xs ys : List Nat) (c : LSeq.Cursor) (z : ZipIter) (x1 x2 
   rw [h.lst1, h.lst2, hc]
   refine ⟨{ index := z.index + 1, last1 := Ptr.shiftIns (k + 1) 1 (some k), last2 := Ptr.shiftIns (k + 1) 1 (some k),
             next1 := z.next1.shiftIns (k + 1) 1, next2 := z.next2.shiftIns (k + 1) 1 }, ?_, ?_⟩
-  · by_cases ha : m.alloc.1 = true
-    · by_cases hb : m.alloc.2.alloc.1 = true
+  · (try simp only [ofList_triple])
+    by_cases ha : (m.allocT t).1 = true
+    · by_cases hb : ((m.allocT t).2.allocT t2).1 = true
       · simp only [ha, hb, Bool.not_true, Bool.false_eq_true, if_false, if_true, ofList_nodes, Ptr.valid, hk1, hk2,
           decide_true, Bool.and_self, Mem.check_true, Ptr.pos, Option.getD_some, ofList_size, h.idx, hpos]
         congr 1; congr 1
